@@ -29,8 +29,15 @@ fn build(cfg: &[u16]) -> Built {
         (K::Whois, 4),
         (K::Privmsg, 3),
     ]);
+    // half of the cases have a channel declared in the configuration (it persists while empty)
+    let mut cfg = CfgSpec::default();
+    let mut prof = prof;
+    if s.chance(50) {
+        cfg.channels.push(crate::cfgspec::ChanSpec { name: "#pre0".into(), topic: Some("configured".into()), flags: "nt".into(), voices: vec!["n1".into()], ..Default::default() });
+        prof.chans.push("#pre0".into());
+    }
     Built {
-        cfg: CfgSpec::default(),
+        cfg,
         prof,
         prelude_users: users,
         setup: vec![],
